@@ -1,6 +1,6 @@
 #!/bin/bash
 # tools/all_mutants.sh [tier] : runs every stored seeded change against the check
-# of its property (scratch worktrees, 6 at a time) and prints one line each.
+# of its property (scratch worktrees, 7 at a time) and prints one line each.
 TIER=${1:-quick}
 cd /verif
 ls seeded | grep -v -e README -e LAST_REGRESSION | while read id; do
@@ -9,7 +9,7 @@ ls seeded | grep -v -e README -e LAST_REGRESSION | while read id; do
   echo "$id $P"
 done > /tmp/mv/all.list
 mkdir -p /tmp/mv/all
-cat /tmp/mv/all.list | xargs -P 6 -L 1 bash -c 'id=$0; shift 0; props="${@}"; /verif/tools/try_mutant.sh all-$id /verif/seeded/$id/patch.diff '"$TIER"' $props > /tmp/mv/all/$id.log 2>&1'
+cat /tmp/mv/all.list | xargs -P 7 -L 1 bash -c 'id=$0; shift 0; props="${@}"; /verif/tools/try_mutant.sh all-$id /verif/seeded/$id/patch.diff '"$TIER"' $props > /tmp/mv/all/$id.log 2>&1'
 echo "id | suite | result"
 for f in /tmp/mv/all/*.log; do
   id=$(basename $f .log)
